@@ -193,6 +193,12 @@ pub enum Step {
     RefWrap { blob: usize, family: u8, wk: WrapKind, key: usize, with: SecretRef, params: PwParams, entropy: Bytes },
     /// compute the id of a key on a node
     Id { node: usize, slot: usize },
+    /// Eq / Ord / Hash of two key ids must agree with their bytes
+    IdRel { reader: Bk, a: TextRef, b: TextRef },
+    /// a Byzantine sender puts an arbitrary string on the wire as a token (never issued)
+    TokInject { tok: usize, family: u8, purpose: Purp, text: String },
+    /// a Byzantine writer puts an arbitrary string into the store as a blob (never stored honestly)
+    BlobInject { blob: usize, family: u8, wk: WrapKind, kind: Kind, text: String },
     /// offer a text to a parser (C09 / C10)
     Offer {
         text: TextRef,
@@ -261,6 +267,9 @@ impl Step {
             Step::Unwrap { .. } => "Unwrap",
             Step::RefWrap { .. } => "RefWrap",
             Step::Id { .. } => "Id",
+            Step::IdRel { .. } => "IdRel",
+            Step::TokInject { .. } => "TokInject",
+            Step::BlobInject { .. } => "BlobInject",
             Step::Offer { .. } => "Offer",
             Step::Serde { .. } => "Serde",
             Step::Threads { .. } => "Threads",
